@@ -10,11 +10,23 @@ RULE = ('fault origins {early listener, ordinary listener, built-in reaction (lo
         'with the extracted model. Non-trivial = at least one handler matched; distinct by (origin, chain, final).')
 
 
-class E0(Exception):
+FROZEN = [False]
+
+
+class _NoExcInfo(object):
+    """when FROZEN[0] is set, instances refuse the backward-compatible 'exc_info' attribute (as an exception class with a read-only
+    property or a frozen dataclass does); recording the exception on the connection does not depend on that attribute"""
+    def __setattr__(self, k, v):
+        if k == 'exc_info' and FROZEN[0]:
+            raise AttributeError("can't set attribute 'exc_info'")
+        super(_NoExcInfo, self).__setattr__(k, v)
+
+
+class E0(_NoExcInfo, Exception):
     pass
 
 
-class E1(ValueError):
+class E1(_NoExcInfo, ValueError):
     pass
 
 
@@ -22,7 +34,7 @@ class E2(E1):
     pass
 
 
-class E3(IOError):
+class E3(_NoExcInfo, IOError):
     pass
 
 
@@ -58,6 +70,7 @@ def run(chk):
             excs[900 + len(excs)] = e
             return 900 + len(excs) - 1
         fault_cls = rng.choice([E0, E1, E2, E3, OSError, EOFError, ValueError, BrokenPipeError])
+        FROZEN[0] = cfg % 3 == 1
         if origin == 'burst':
             # a fault of the I/O family in the write phase, late in a long burst of queued packets (the loop holds such an error
             # back until the read phase is over; with more than fifty packets written there is no read phase in that turn)
@@ -251,6 +264,12 @@ def run(chk):
                 'interrupt': t0.interrupt,
                 'slot_cleared': conn.networking_thread is None or conn.networking_thread is not t0,
             }
+            # the connection's 'exception' and 'exc_info' are recorded together, whatever the exception object itself accepts
+            ei = conn.exc_info
+            if conn.exception is not None and not (isinstance(ei, tuple) and len(ei) == 3 and ei[1] is conn.exception and ei[0] is type(conn.exception)):
+                chk.violation('chain', 'exc-info:%s:%d' % (origin, cfg), {'case': {'origin': origin, 'cfg': cfg, 'exception_refuses_exc_info_attribute': FROZEN[0]},
+                              'observed': {'exception': repr(conn.exception), 'exc_info': repr(ei)}},
+                              'fault in %s: connection.exception is %r but connection.exc_info is %r (not the exc_info of that exception)' % (origin, conn.exception, ei))
             # afterwards the same object can connect again (let a successor started by a handler finish first)
             net.run_threads(conn)
             try:
